@@ -1,40 +1,203 @@
-/* C10, spifconf_shell_expand, tier B (bounded): the REAL conf.c + strings.c, loops unwound, exact byte-loop
- * libc models (contracts/env_expand.h), one environment variable "a", HOME, one registered built-in "a".
+/* C10, spifconf_shell_expand, tier B (bounded): the REAL conf.c, loops unwound, exact byte-loop libc models
+ * (contracts/env_expand.h), one environment variable "a", HOME, one registered built-in "a".
  *
- * Why tier B: see units/C10/README in prop.json note -- cbmc's DFCC loop-contract instrumentation of this
- * 230-line function (7 loops, recursion) does not fit in memory (every loop guard dereferences a havocked
- * cursor, which cbmc resolves against each of ~190 bookkeeping objects).
+ * Why tier B: cbmc 6.11 cannot carry the tier P design (loop contracts on the main loop and the six inner
+ * loops, DFCC) through this 230-line function: every loop guard dereferences a havocked cursor, which cbmc
+ * resolves against each of the ~190 heap objects of the DFCC bookkeeping, and the propositional encoding
+ * exceeds 11 GB even with the line buffer shrunk; see units/C10/prop.json.
  *
  * exact_*  : the result equals an executable REFERENCE expansion written from the property statement
  *            (ref_expand below), for every input of <= NMAX characters over the unit's alphabet.
  *            Inputs whose meaning the statement does not define (unterminated ${ / $( / %a(, empty ${},
  *            "%a )") are outside these units (they are the business of the reads_* units).
- * reads_*  : the input sits in a heap block of exactly strlen+1 bytes and nothing can grow (HOME, $a unset,
- *            the built-in returns NULL or ""): any read behind the terminator and any write outside a
- *            buffer is a failed pointer check.
- * determinism : two calls on equal text with different bytes behind the terminator (and cbmc's arbitrary
- *            initial contents of the stack buffer) give equal results.
  */
 /*@unit
 name: exact_quote_tilde
-define: U_EXACT, A_SPACE, A_TILDE, A_SQ, A_DQ, NMAX=7, VERIF_EXACT_LIBC, VERIF_OWN_STRLEN, VERIF_OWN_STRCMP, VERIF_OWN_STRDUP, VERIF_OWN_STRCHR
-src: conf.c, strings.c
+define: U_EXACT, A_SPACE, A_TILDE, A_SQ, A_DQ, NMAX=8, BUFF=32, VERIF_EXACT_LIBC, VERIF_OWN_STRLEN, VERIF_OWN_STRCMP, VERIF_OWN_STRDUP, VERIF_OWN_STRCHR
+src: conf.c
 tier: B
-bound: input <= 7 characters over {a, space, ~, ', "}; HOME unset, empty or "/h"
+bound: input <= 8 characters over {a, space, ~, ', "}; HOME unset, empty or "/h"; line-buffer limit CONFIG_BUFF scaled to 32 bytes (stated re-binding)
 unwind: 10
-flags: --unwindset strcpy.0:24,spiftool_safe_strncpy.0:4
+flags: --unwindset strlen.0:20,strcpy.0:20,harness.1:42,vb_a.0:20,spiftool_safe_strncpy.0:20,mk_str.0:6,strncasecmp.0:4,spifconf_shell_expand:0
 objbits: 10
 backend: sat
 timeout: 600
-funcs: spifconf_shell_expand, spiftool_safe_strncpy
+quick: yes
+funcs: spifconf_shell_expand
+*/
+/*@unit
+name: exact_escape
+define: U_EXACT, A_SPACE, A_BS, A_SQ, A_DQ, NMAX=8, BUFF=32, VERIF_EXACT_LIBC, VERIF_OWN_STRLEN, VERIF_OWN_STRCMP, VERIF_OWN_STRDUP, VERIF_OWN_STRCHR
+src: conf.c
+tier: B
+bound: input <= 8 characters over {a, space, \, ', "} that does not end in a backslash; line-buffer limit CONFIG_BUFF scaled to 32 bytes (stated re-binding)
+unwind: 10
+flags: --unwindset strlen.0:12,strcpy.0:12,harness.1:42,vb_a.0:12,spiftool_safe_strncpy.0:12,mk_str.0:6,strncasecmp.0:4,spifconf_shell_expand:0
+objbits: 10
+backend: sat
+timeout: 600
+quick: yes
+funcs: spifconf_shell_expand
+*/
+/*@unit
+name: exact_escape_trailing
+define: U_EXACT, A_SPACE, A_BS, A_SQ, A_DQ, D_FLAGS=RF_TRAIL_BS, D_NEED=RF_TRAIL_BS, NMAX=8, BUFF=32, VERIF_EXACT_LIBC, VERIF_OWN_STRLEN, VERIF_OWN_STRCMP, VERIF_OWN_STRDUP, VERIF_OWN_STRCHR
+src: conf.c
+tier: B
+bound: input <= 8 characters over {a, space, \, ', "} that ends in a backslash; line-buffer limit CONFIG_BUFF scaled to 32 bytes (stated re-binding)
+unwind: 10
+flags: --unwindset strlen.0:12,strcpy.0:12,harness.1:42,vb_a.0:12,spiftool_safe_strncpy.0:12,mk_str.0:6,strncasecmp.0:4,spifconf_shell_expand:0
+objbits: 10
+backend: sat
+timeout: 600
+quick: yes
+funcs: spifconf_shell_expand
+*/
+/*@unit
+name: exact_env_set
+define: U_EXACT, A_SPACE, A_DOLLAR, ENV_SET, A_SQ, A_DQ, NMAX=8, BUFF=32, VERIF_EXACT_LIBC, VERIF_OWN_STRLEN, VERIF_OWN_STRCMP, VERIF_OWN_STRDUP, VERIF_OWN_STRCHR
+src: conf.c
+tier: B
+bound: input <= 8 characters over {a, space, $, ', "}, every $ followed by a name; $a set to "V"; line-buffer limit CONFIG_BUFF scaled to 32 bytes (stated re-binding)
+unwind: 10
+flags: --unwindset strlen.0:14,strcpy.0:14,harness.1:42,vb_a.0:14,spiftool_safe_strncpy.0:14,mk_str.0:6,strncasecmp.0:4,spifconf_shell_expand:0
+objbits: 10
+backend: sat
+timeout: 600
+quick: yes
+funcs: spifconf_shell_expand
+*/
+/*@unit
+name: exact_env_unset
+define: U_EXACT, A_SPACE, A_DOLLAR, ENV_UNSET, A_SQ, A_DQ, NMAX=8, BUFF=32, VERIF_EXACT_LIBC, VERIF_OWN_STRLEN, VERIF_OWN_STRCMP, VERIF_OWN_STRDUP, VERIF_OWN_STRCHR
+src: conf.c
+tier: B
+bound: input <= 8 characters over {a, space, $, ', "}, every $ followed by a name; $a unset or empty; line-buffer limit CONFIG_BUFF scaled to 32 bytes (stated re-binding)
+unwind: 10
+flags: --unwindset strlen.0:12,strcpy.0:12,harness.1:42,vb_a.0:12,spiftool_safe_strncpy.0:12,mk_str.0:6,strncasecmp.0:4,spifconf_shell_expand:0
+objbits: 10
+backend: sat
+timeout: 600
+quick: yes
+funcs: spifconf_shell_expand
+*/
+/*@unit
+name: exact_env_delim
+define: U_EXACT, A_DOLLAR, A_BRACE, A_PAREN, NMAX=8, BUFF=32, VERIF_EXACT_LIBC, VERIF_OWN_STRLEN, VERIF_OWN_STRCMP, VERIF_OWN_STRDUP, VERIF_OWN_STRCHR
+src: conf.c
+tier: B
+bound: input <= 8 characters over {a, $, {, }, (, )}, every ${ and $( closed and named; $a unset, empty or "V"; line-buffer limit CONFIG_BUFF scaled to 32 bytes (stated re-binding)
+unwind: 10
+flags: --unwindset strlen.0:14,strcpy.0:14,harness.1:42,vb_a.0:14,spiftool_safe_strncpy.0:14,mk_str.0:6,strncasecmp.0:4,spifconf_shell_expand:0
+objbits: 10
+backend: sat
+timeout: 600
+quick: yes
+funcs: spifconf_shell_expand
+*/
+/*@unit
+name: exact_env_lone_dollar
+define: U_EXACT, A_SPACE, A_DOLLAR, D_FLAGS=RF_LONEDOLLAR, D_NEED=RF_LONEDOLLAR, NMAX=6, BUFF=32, VERIF_EXACT_LIBC, VERIF_OWN_STRLEN, VERIF_OWN_STRCMP, VERIF_OWN_STRDUP, VERIF_OWN_STRCHR
+src: conf.c
+tier: B
+bound: input <= 6 characters over {a, space, $} with a $ that names nothing; line-buffer limit CONFIG_BUFF scaled to 32 bytes (stated re-binding)
+unwind: 8
+flags: --unwindset strlen.0:12,strcpy.0:12,harness.1:42,vb_a.0:12,spiftool_safe_strncpy.0:12,mk_str.0:6,strncasecmp.0:4,spifconf_shell_expand:0
+objbits: 10
+backend: sat
+timeout: 600
+quick: yes
+funcs: spifconf_shell_expand
+*/
+/*@unit
+name: exact_call
+define: U_EXACT, A_SPACE, A_PCT, A_PAREN, NMAX=8, BUFF=32, VERIF_EXACT_LIBC, VERIF_OWN_STRLEN, VERIF_OWN_STRCMP, VERIF_OWN_STRDUP, VERIF_OWN_STRCHR
+src: conf.c
+tier: B
+bound: input <= 8 characters over {a, space, %, (, )}, every % starts a balanced call of the built-in a, nesting <= 2; line-buffer limit CONFIG_BUFF scaled to 32 bytes (stated re-binding)
+unwind: 10
+flags: --unwindset strlen.0:16,strcpy.0:16,harness.1:42,vb_a.0:16,spiftool_safe_strncpy.0:16,mk_str.0:6,strncasecmp.0:4,spifconf_shell_expand:3
+objbits: 10
+backend: sat
+timeout: 900
+quick: yes
+funcs: spifconf_shell_expand
+*/
+/*@unit
+name: exact_call_lone_pct
+define: U_EXACT, A_SPACE, A_PCT, A_PAREN, D_FLAGS=RF_LONEPCT, D_NEED=RF_LONEPCT, NMAX=6, BUFF=32, VERIF_EXACT_LIBC, VERIF_OWN_STRLEN, VERIF_OWN_STRCMP, VERIF_OWN_STRDUP, VERIF_OWN_STRCHR
+src: conf.c
+tier: B
+bound: input <= 6 characters over {a, space, %, (, )} with a % that starts no call; line-buffer limit CONFIG_BUFF scaled to 32 bytes (stated re-binding)
+unwind: 8
+flags: --unwindset strlen.0:14,strcpy.0:14,harness.1:42,vb_a.0:14,spiftool_safe_strncpy.0:14,mk_str.0:6,strncasecmp.0:4,spifconf_shell_expand:2
+objbits: 10
+backend: sat
+timeout: 900
+quick: yes
+funcs: spifconf_shell_expand
+*/
+/*@unit
+name: exact_mixed
+define: U_EXACT, A_SPACE, A_TILDE, A_BS, A_PCT, A_PAREN, A_SQ, A_DQ, NMAX=6, BUFF=32, VERIF_EXACT_LIBC, VERIF_OWN_STRLEN, VERIF_OWN_STRCMP, VERIF_OWN_STRDUP, VERIF_OWN_STRCHR
+src: conf.c
+tier: B
+bound: input <= 6 characters over {a, space, ~, \, %, (, ), ', "}: constructs inside call arguments and quotes; no trailing backslash, every % a balanced call; line-buffer limit CONFIG_BUFF scaled to 32 bytes (stated re-binding)
+unwind: 8
+flags: --unwindset strlen.0:22,strcpy.0:22,harness.1:42,vb_a.0:22,spiftool_safe_strncpy.0:22,mk_str.0:6,strncasecmp.0:4,spifconf_shell_expand:2
+objbits: 10
+backend: sat
+timeout: 900
+quick: yes
+funcs: spifconf_shell_expand
 */
 #include "vprelude.h"
+/* tier B runs the loops unwound: the identity re-basing of walking pointers (needed only under loop
+ * contracts) is switched off -- cbmc 6.11 crashes on the unrolled chain p = base + POINTER_OFFSET(p) */
+#undef VERIF_ANCHOR
+#define VERIF_ANCHOR(p, base) ((void) 0)
 #include "expand.h"
 #include "env_expand.h"
-#include "strings.h"   /* spec macros / ghosts used by the annotation tables of strings.c (owners strhelp, split) */
-#include "split.h"
+/* STATED RE-BINDING (tier B only): the line-buffer limit CONFIG_BUFF (20480 in libast.h) is scaled down to
+ * BUFF bytes for the code under test.  conf.c uses the limit only through this macro (newbuff[CONFIG_BUFF],
+ * max = CONFIG_BUFF - 1, MALLOC(CONFIG_BUFF)), so the scaled build is the same program with a smaller line
+ * buffer: inputs of a few characters then reach the limit and exercise the truncation arithmetic, and cbmc
+ * can treat the buffers cell by cell (its array theory needs > 6 GB for inputs of 2 characters at 20480). */
+#ifdef BUFF
+# undef CONFIG_BUFF
+# define CONFIG_BUFF BUFF
+#endif
 #include "src/conf.c"
-#include "src/strings.c"
+
+/* spiftool_safe_strncpy (strings.c): EXECUTABLE MODEL of the contract proved in C13.safe_strncpy ("writes at
+ * most size bytes, leaves dest NUL-terminated, stores the longest prefix of src that fits, TRUE iff nothing
+ * was cut").  The real strings.c cannot be unwound here: its annotation table re-bases the walking pointers
+ * (p = base + POINTER_OFFSET(p) - POINTER_OFFSET(base)) and cbmc 6.11 crashes on the unrolled chain. */
+spif_bool_t spiftool_safe_strncpy(spif_charptr_t dest, const spif_charptr_t src, spif_int32_t size)
+{
+    spif_int32_t i;
+    __CPROVER_assert(dest != NULL && src != NULL && size > 0, "safe_strncpy requires: dest, src not NULL and size > 0");
+    for (i = 0; i < size - 1 && src[i]; i++) {
+        __CPROVER_assert((size_t) i < VREMAIN(dest), "safe_strncpy: destination has size bytes");
+        dest[i] = src[i];
+    }
+    __CPROVER_assert((size_t) i < VREMAIN(dest), "safe_strncpy: destination has size bytes");
+    dest[i] = 0;
+    return src[i] ? FALSE : TRUE;
+}
+
+/* back-quote execution: the temporary file cannot be created, builtin_exec gives up and returns NULL (one
+ * of the outcomes the environment allows; the alphabets of these units hold no back-quote, this only keeps
+ * cbmc from unrolling the command-building code on a path that cannot be taken) */
+int spiftool_temp_file(spif_charptr_t ftemplate, size_t len) { return -1; }
+/* cbmc turns the dispatch (builtins[k].ptr)(Command) into a switch over every function of that signature
+ * whose address is taken anywhere in conf.c, i.e. also the seven real built-ins, although the table of these
+ * units holds vb_a only.  Their library callees get trivial bodies so that those (infeasible) branches stay
+ * small: no words, no directory, no formatted output. */
+unsigned long spiftool_num_words(const spif_charptr_t str) { return 0; }
+spif_charptr_t spiftool_get_word(unsigned long index, const spif_charptr_t str) { return (spif_charptr_t) NULL; }
+DIR *opendir(const char *name) { return (DIR *) 0; }
+int snprintf(char *str, size_t size, const char *format, ...) { if (size) str[0] = 0; return 0; }
 
 /* ---- the registered built-in "a": NULL for NULL or empty arguments, "" when the arguments start with a
  * blank, otherwise the arguments in square brackets ---------------------------------------------------- */
@@ -81,21 +244,26 @@ static const char *ref_env(const char *nm, size_t n)      /* the environment: on
 #define R_PUTS(str) do { const char *vq_s = (str); size_t vq_i; if (vq_s) for (vq_i = 0; vq_s[vq_i]; vq_i++) R_PUT(vq_s[vq_i]); } while (0)
 
 /* expands in[0..len) into out (NUL-terminated); returns the length */
-static size_t ref_expand(const char *in, size_t len, char *out)
+static size_t ref_expand(const char *in, size_t len, char *out, int depth)
 {
     size_t i = 0, o = 0;
     int sq = 0, dq = 0;
     while (i < len) {
         char c = in[i];
+#ifdef A_BS
         if (c == '\\') {
             if (i + 1 >= len) { ref_flags |= RF_TRAIL_BS; R_PUT('\\'); i++; }        /* ordinary text */
             else if (!sq) { R_PUT(ref_escape(in[i + 1])); i += 2; }                  /* escape -> control character */
             else if (in[i + 1] == '\'') { R_PUT('\''); i += 2; }                      /* \' inside single quotes */
             else { R_PUT('\\'); R_PUT(in[i + 1]); i += 2; }                           /* left alone */
-        } else if (c == '~') {
+        } else
+#endif
+        if (c == '~') {
             if (!sq && !dq && vb_home && vb_home[0]) R_PUTS(vb_home); else R_PUT('~');
             i++;
-        } else if (c == '$' && !sq) {
+        }
+#ifdef A_DOLLAR
+        else if (c == '$' && !sq) {
             size_t a, e;
             char close = (i + 1 < len && in[i + 1] == '{') ? '}' : (i + 1 < len && in[i + 1] == '(') ? ')' : 0;
             if (close) {
@@ -111,7 +279,10 @@ static size_t ref_expand(const char *in, size_t len, char *out)
                 if (e == a) { ref_flags |= RF_LONEDOLLAR; R_PUT('$'); i++; }          /* names nothing: text */
                 else { R_PUTS(ref_env(in + a, e - a)); i = e; }
             }
-        } else if (c == '%') {
+        }
+#endif
+#ifdef A_PCT
+        else if (c == '%') {
             if (i + 2 < len && tolower(in[i + 1]) == 'a' && in[i + 2] == '(') {       /* %a( ... ) */
                 size_t a = i + 3, e, depth = 1;
                 char arg[R_OUTMAX];
@@ -122,7 +293,8 @@ static size_t ref_expand(const char *in, size_t len, char *out)
                     else if (in[e] == ')' && --depth == 0) break;
                 }
                 if (e >= len) { ref_flags |= RF_MISMATCH; out[o] = 0; return o; }
-                alen = ref_expand(in + a, e - a, arg);                                /* innermost first */
+                if (depth <= 0) { ref_flags |= RF_OVERFLOW; out[o] = 0; return o; }
+                alen = ref_expand(in + a, e - a, arg, depth - 1);                     /* innermost first */
                 (void) alen;
                 res = vb_a(arg);
                 R_PUTS(res);
@@ -133,7 +305,9 @@ static size_t ref_expand(const char *in, size_t len, char *out)
                 ref_flags |= RF_LONEPCT;
                 R_PUT('%'); i++;
             }
-        } else {
+        }
+#endif
+        else {
             if (c == '"' && !sq) dq = !dq;
             if (c == '\'') sq = !sq;
             R_PUT(c); i++;
@@ -210,10 +384,11 @@ static void pick_environment(void)
 }
 static void setup_builtins(void)                      /* table: "a" -> vb_a, then the NULL name */
 {
-    builtin_cnt = 4; builtin_idx = 1;
-    builtins = malloc(sizeof(spifconf_func_t) * 4);
-    builtins[0].name = (spif_charptr_t) mk_str("a"); builtins[0].ptr = vb_a;
-    builtins[1].name = NULL; builtins[1].ptr = NULL;
+    static spifconf_func_t tab[2];                    /* every slot holds a known pointer: cbmc then resolves the */
+    builtin_cnt = 2; builtin_idx = 1;                 /* dispatch (builtins[k].ptr)(...) to vb_a alone            */
+    builtins = tab;
+    builtins[0].name = (spif_charptr_t) "a"; builtins[0].ptr = vb_a;
+    builtins[1].name = NULL; builtins[1].ptr = vb_a;
     fstate_cnt = 2; fstate_idx = 0;
     fstate = malloc(sizeof(fstate_t) * 2);
     fstate[0].path = (spif_charptr_t) mk_str("f"); fstate[0].line = 1; fstate[0].fp = NULL; fstate[0].outfile = NULL; fstate[0].flags = 0;
@@ -230,7 +405,7 @@ void harness(void)
     pick_environment();
     setup_builtins();
     ref_flags = 0;
-    rl = ref_expand(w_in, w_len, ref);
+    rl = ref_expand(w_in, w_len, ref, 2);
 #ifndef D_FLAGS
 # define D_FLAGS 0u
 #endif
@@ -239,7 +414,8 @@ void harness(void)
 #ifdef D_NEED
     __CPROVER_assume((ref_flags & (D_NEED)) != 0);
 #endif
-    buf = malloc(CONFIG_BUFF);                          /* a line buffer: text, terminator, leftovers */
+    /* the caller's line buffer: text, terminator, leftovers */
+    buf = malloc(CONFIG_BUFF);
     for (i = 0; i <= w_len; i++) buf[i] = w_in[i];
     r = spifconf_shell_expand(buf);
     __CPROVER_assert(r == buf, "expansion succeeds and returns its argument");
